@@ -90,7 +90,7 @@ variable {s : BSt}
 
 /-- flag numbers identify their statement: across all contexts, two accepted records with the same flag number are
     the same record of the same context -/
-theorem FI.flag_unique (h : FI none [] s) {i j : Nat} {st st' : Stmt} {f : Nat}
+theorem FI.flag_unique {pf : List Nat} (h : FI none pf s) {i j : Nat} {st st' : Stmt} {f : Nat}
     (h1 : st ∈ (s.th i).accepted) (h2 : st' ∈ (s.th j).accepted) (f1 : flagOf st = some f) (f2 : flagOf st' = some f) :
     i = j ∧ st = st' := by
   have hij : i = j := by
@@ -101,7 +101,7 @@ theorem FI.flag_unique (h : FI none [] s) {i j : Nat} {st st' : Stmt} {f : Nat}
 
 /-- the flag of a Flush statement is raised only after the statement and everything its thread accepted before it
     have been popped -/
-theorem FI.flush_flag_popped (h : FI none [] s) {i : Nat} {pre post : List Stmt} {st : Stmt} {f : Nat}
+theorem FI.flush_flag_popped {pf : List Nat} (h : FI none pf s) {i : Nat} {pre post : List Stmt} {st : Stmt} {f : Nat}
     (hacc : (s.th i).accepted = pre ++ st :: post) (hk : st.kind = .flush f) (hf : f ∈ s.flags) :
     ∃ more, (s.th i).popped = pre ++ st :: more := by
   have hfo : flagOf st = some f := by simp [flagOf, hk, flagOfK]
